@@ -239,3 +239,16 @@ Fixpoint fkc_mismatches (i : nat) (l : list fkc_obs) : list (nat * nat) :=
   | c :: r => let v := fkc_check c in
               if Nat.eqb v 0 then fkc_mismatches (S i) r else (i, v) :: fkc_mismatches (S i) r
   end.
+
+(* maintenance of one traced day (RadiaModel.maint_pot_of / mant_of): organ masses and maintenance rates handed to radia(), the power
+   oracle TEFF; observed MAINTS*TEFF (recorded by the shadow) and the shares MANT of the REAL kernel.  1 = MAINTS*TEFF, 2 = MANT *)
+Record maint_obs := { mto_worg : list float; mto_mairt : list float; mto_teff : float; mto_o_pot : float; mto_o_mant : list float }.
+Definition maint_check (o : maint_obs) : nat :=
+  ((if float_same (maint_pot_of (mto_worg o) (mto_mairt o) (mto_teff o)) (mto_o_pot o) then 0 else 1)
+   + (if floats_same (mant_of (mto_worg o) (mto_mairt o)) (mto_o_mant o) then 0 else 2))%nat.
+Fixpoint maint_mismatches (i : nat) (l : list maint_obs) : list (nat * nat) :=
+  match l with
+  | [] => []
+  | c :: r => let v := maint_check c in
+              if Nat.eqb v 0 then maint_mismatches (S i) r else (i, v) :: maint_mismatches (S i) r
+  end.
